@@ -1326,7 +1326,7 @@ package asm
 //@ # one-level contracts of the translators below). Its last clause DEFINES tyOf: tyOf(a) is the type irType
 //@ # returns for a, up to type identity -- assumed, not verified: that irType is a function of the node up to teq.
 //@ func (*generator).irType
-//@   props C06 C16
+//@   props C04 C06 C16
 //@   partial
 //@   requires gen != nil
 //@   assigns nothing
@@ -1334,7 +1334,7 @@ package asm
 //@   ensures result1 == nil && typeis(old, "*ast.NamedType") ==> result0 == gen.new.typeDefs[getTypeName(localIdent(cast(old, "*ast.NamedType").Name()))]
 //@   assumed ensures result1 == nil ==> result0 != nil && teq(result0, tyOf(old)) && unfold(result0)
 //@ func (*generator).irTypeDef
-//@   props C06 C16
+//@   props C04 C06 C16
 //@   partial
 //@   requires gen != nil
 //@   behaviour create:
